@@ -5,17 +5,18 @@
 EXTENDS SubstateLocks, TraceIO
 VARIABLE l
 Ev == Rec[l]
-LockedSet == {s \in Substates : IsLocked(s[1], s[2])}
-NLocked == {n \in Nodes : NodeIsLocked(n)}
-ObsMatches(ev) == /\ LockedSet = {<<p[1], p[2]>> : p \in ToSet(ev.locked)}
-                  /\ NLocked = ToSet(ev.nlocked)
+\* observations recorded after the step, compared with the successor state
+ObsMatchesP(ev) ==
+  /\ {s \in Substates : \E h \in DOMAIN handles' : handles'[h].n = s[1] /\ handles'[h].k = s[2]}
+       = {<<p[1], p[2]>> : p \in ToSet(ev.locked)}
+  /\ {n \in Nodes : \E h \in DOMAIN handles' : handles'[h].n = n} = ToSet(ev.nlocked)
 TInit == Init /\ l = 1
 TLock == /\ l <= Len(Rec) /\ Ev.a = "lock"
          /\ Lock(Ev.n, Ev.k, Ev.ro) /\ ret' = Ev.ret
-         /\ ObsMatches(Ev)' /\ l' = l + 1
+         /\ ObsMatchesP(Ev) /\ l' = l + 1
 TUnlock == /\ l <= Len(Rec) /\ Ev.a = "unlock"
            /\ Unlock(Ev.ret)
-           /\ ObsMatches(Ev)' /\ l' = l + 1
+           /\ ObsMatchesP(Ev) /\ l' = l + 1
 TReset == /\ l <= Len(Rec) /\ Ev.a = "reset"
           /\ handles' = <<>> /\ next' = 0 /\ ret' = -2 /\ l' = l + 1
 TNext == TLock \/ TUnlock \/ TReset
